@@ -235,6 +235,56 @@ func poolPhase(e *common.Env, maxLen int) map[string]any {
 		e.Fail("pool-interference", "with empty pools: "+bad[0], map[string]any{"chain": "-", "problems": bad})
 	}
 
+	// a stream that was read to its end and is still open must go on reporting io.EOF while other
+	// streams are opened and read (a decompressor handed back to the pool too early would be shared)
+	for i := 0; i < 2*nProbe; i++ {
+		emptyPools()
+		a, b := probes[i], probes[(i+1)%nProbe+(i/nProbe)*nProbe]
+		var problems []string
+		func() {
+			defer func() {
+				if r := recover(); r != nil {
+					problems = append(problems, fmt.Sprintf("panic: %v", r))
+				}
+			}()
+			ra, err := a.open()
+			if err != nil {
+				problems = append(problems, "open: "+err.Error())
+				return
+			}
+			defer ra.Close()
+			gotA, err := io.ReadAll(ra)
+			if err != nil || !bytes.Equal(gotA, a.want) {
+				problems = append(problems, fmt.Sprintf("first stream: %d bytes, err %v", len(gotA), err))
+				return
+			}
+			rb, err := b.open()
+			if err != nil {
+				problems = append(problems, "open second: "+err.Error())
+				return
+			}
+			defer rb.Close()
+			buf := make([]byte, 512)
+			half, _ := io.ReadFull(rb, buf)
+			for k := 0; k < 3; k++ {
+				if n, err := ra.Read(make([]byte, 256)); n != 0 || err != io.EOF {
+					problems = append(problems, fmt.Sprintf("the first stream, read again after its end while a second stream is open, delivers %d bytes (err %v) instead of (0, EOF)", n, err))
+					break
+				}
+			}
+			rest, err := io.ReadAll(rb)
+			gotB := append(buf[:half:half], rest...)
+			if err != nil || !bytes.Equal(gotB, b.want) {
+				problems = append(problems, fmt.Sprintf("the second stream delivers %d bytes (err %v) that differ from the %d bytes it delivers alone (first difference at %d)", len(gotB), err, len(b.want), firstDiff(gotB, b.want)))
+			}
+		}()
+		e.Count(true, fmt.Sprintf("pool:eof-poll:%d", i), "pool: a finished but still open stream is polled while another stream is open")
+		if len(problems) > 0 {
+			e.Fail("pool-interference", "a stream read to its end and still open, and a second stream opened afterwards: "+problems[0], map[string]any{"chain": "eof-poll", "streams": []int{i, (i+1)%nProbe + (i/nProbe)*nProbe}, "problems": problems})
+			emptyPools()
+		}
+	}
+
 	var chains [][]int
 	var rec func(c []int)
 	rec = func(c []int) {
